@@ -309,6 +309,14 @@ func (e *Env) observeQuery(db *sod.DB, q Query, obs Obs) {
 		return
 	}
 	obs[key] = fmt.Sprintf("len=%d\n%s", n, e.linesOf(objs))
+	{
+		// exact order (ties included): only compared between two handles across a reopen
+		seq := make([]string, 0, len(objs))
+		for _, o := range objs {
+			seq = append(seq, e.tag(o.UUID()))
+		}
+		obs["qseq:"+q.String()] = strings.Join(seq, " ")
+	}
 	if p, ok := e.m.orderedLast(q); ok {
 		ks := make([]string, 0, len(objs))
 		for _, o := range objs {
@@ -649,6 +657,16 @@ func diffObs(got, want Obs) []string {
 	}
 	for k := range want {
 		keys[k] = true
+	}
+	for k := range keys {
+		// exact result sequences exist only on observed handles (the model leaves tie order free)
+		if strings.HasPrefix(k, "qseq:") {
+			if _, a := got[k]; !a {
+				delete(keys, k)
+			} else if _, b := want[k]; !b {
+				delete(keys, k)
+			}
+		}
 	}
 	ks := make([]string, 0, len(keys))
 	for k := range keys {
@@ -1526,6 +1544,38 @@ func (e *Env) execQuery(what string, q *Query) {
 			e.failf("%s: query %s returned %s with value %s, model has %s", what, q, e.tag(id), canon(d), canon(e.m.objs[id]))
 		}
 	}
+	// a Search value keeps denoting its own matches after refinements were derived from it
+	if len(q.Leaves) > 1 {
+		first := Query{Leaves: q.Leaves[:1]}
+		base := e.runQuery(e.db, first)
+		l := q.Leaves[1]
+		v := l.V.Iface(docPathIndex[l.Path])
+		if l.Conn == "or" {
+			base.Or(l.Path, l.Op, v)
+		} else {
+			base.And(l.Path, l.Op, v)
+		}
+		if bset, bcls := e.m.Eval(first); bcls == OK && base.Err() == nil {
+			bobjs, berr := base.Collect()
+			if berr != nil || len(bobjs) != len(bset) {
+				e.failf("%s: after deriving %s from Search(%s), collecting the base search returns %d objects (err=%v), it matched %d", what, l.Conn, first, len(bobjs), berr, len(bset))
+			}
+			for _, o := range bobjs {
+				if !bset[o.UUID()] {
+					e.failf("%s: after deriving %s from Search(%s), the base search returns %s which it never matched", what, l.Conn, first, e.docLine(o))
+				}
+			}
+			if p, ok := e.m.orderedLast(first); ok {
+				ks := e.m.sortedKeys(bset, p, false)
+				for i, o := range bobjs {
+					if normLeaf(o.(*Doc), p).cmp(ks[i]) != 0 {
+						e.failf("%s: after deriving %s from Search(%s), the base search is no longer in index order", what, l.Conn, first)
+					}
+				}
+			}
+			e.flag("base-search-recollected-after-derivation")
+		}
+	}
 	// order: the key sequence must be the first wantN keys of the sorted match set
 	if p, ok := e.m.orderedLast(*q); ok {
 		ks := e.m.sortedKeys(set, p, q.Reverse)
@@ -1591,6 +1641,15 @@ func (e *Env) reopen(what string, abandon bool) {
 		}
 		delete(after, "control")
 		delete(before, "control")
+		for _, m := range []Obs{after, before} {
+			for k := range m {
+				if strings.HasPrefix(k, "qseq:") {
+					if _, ordered := m["qord:"+strings.TrimPrefix(k, "qseq:")]; !ordered {
+						delete(m, k) // scan / Or order is unspecified
+					}
+				}
+			}
+		}
 		if d := diffObs(after, before); len(d) > 0 {
 			if len(d) > 6 {
 				d = d[:6]
@@ -1704,6 +1763,36 @@ func (e *Env) execSnapshot(what string, op *Op) {
 		before[id] = true
 	}
 	deleted := map[string]bool{}
+	// a refinement derived before the writes is itself a snapshot (of M ∪ / ∩ its leaf)
+	var t1 *sod.Search
+	var E1 map[string]bool
+	if dl, ok := op.Aux["derive"].(map[string]interface{}); ok {
+		var l Leaf
+		reJSON(dl, &l)
+		if ls, lc := e.m.evalLeaf(l); lc == OK {
+			v := l.V.Iface(docPathIndex[l.Path])
+			E1 = map[string]bool{}
+			if l.Conn == "or" {
+				t1 = s.Or(l.Path, l.Op, v)
+				for id := range M {
+					E1[id] = true
+				}
+				for id := range ls {
+					E1[id] = true
+				}
+			} else {
+				t1 = s.And(l.Path, l.Op, v)
+				for id := range M {
+					if ls[id] {
+						E1[id] = true
+					}
+				}
+			}
+			if t1.Err() != nil {
+				t1 = nil
+			}
+		}
+	}
 	keyP := docPathIndex[q.Leaves[len(q.Leaves)-1].Path]
 	lo, hi := norm{}, norm{}
 	first := true
@@ -1764,6 +1853,68 @@ func (e *Env) execSnapshot(what string, op *Op) {
 	if s.Len() != len(M) {
 		e.failf("%s: Len() of the outstanding search %s changed from %d to %d after later writes", what, q, len(M), s.Len())
 	}
+	// refinements derived AFTER the writes still work on the snapshot: And narrows M, Or adds
+	// what matches now; neither may disturb the parent or a sibling derived earlier
+	if dl, ok := op.Aux["derive2"].(map[string]interface{}); ok {
+		var l Leaf
+		reJSON(dl, &l)
+		if ls, lc := e.m.evalLeaf(l); lc == OK {
+			v := l.V.Iface(docPathIndex[l.Path])
+			var t2 *sod.Search
+			allowed := map[string]bool{}
+			if l.Conn == "or" {
+				t2 = s.Or(l.Path, l.Op, v)
+				for id := range M {
+					allowed[id] = true
+				}
+				for id := range ls {
+					allowed[id] = true
+				}
+			} else {
+				t2 = s.And(l.Path, l.Op, v)
+				for id := range M {
+					allowed[id] = true
+				}
+			}
+			if t2.Err() == nil {
+				if objs2, err2 := t2.Collect(); err2 == nil {
+					for _, o := range objs2 {
+						if !allowed[o.UUID()] {
+							e.failf("%s: %s derived from the outstanding search %s after the writes returned %s, which is outside the snapshot", what, l.Conn, q, e.docLine(o))
+						}
+					}
+					e.flag("snapshot-derived-after-writes")
+				}
+			}
+		}
+	}
+	if t1 != nil {
+		objs1, err1 := t1.Collect()
+		anyDeleted := false
+		for id := range E1 {
+			if deleted[id] {
+				anyDeleted = true
+			}
+		}
+		if err1 != nil && !anyDeleted {
+			e.failf("%s: collecting a refinement derived from %s before the writes failed (%v) although none of its members was deleted", what, q, err1)
+		}
+		if err1 == nil {
+			seen1 := map[string]bool{}
+			for _, o := range objs1 {
+				if !E1[o.UUID()] {
+					e.failf("%s: a refinement derived from %s before the writes (and before a sibling was derived) returned %s, which it did not denote", what, q, e.docLine(o))
+				}
+				seen1[o.UUID()] = true
+			}
+			for id := range E1 {
+				if !deleted[id] && !seen1[id] {
+					e.failf("%s: a refinement derived from %s before the writes lost %s", what, q, e.tag(id))
+				}
+			}
+			e.flag("snapshot-sibling-derivation")
+		}
+	}
 	var objs []sod.Object
 	var err error
 	switch q.Consumer {
@@ -1804,6 +1955,17 @@ func (e *Env) execSnapshot(what string, op *Op) {
 // poison puts NaN / +Inf / -Inf into a float field of d.
 func poison(d *Doc, aux map[string]interface{}) {
 	v := math.NaN()
+	switch aux["val"] {
+	case "badtime": // encoding/json refuses years outside [0,9999]
+		d.In.T = time.Date(20000, 1, 1, 0, 0, 0, 0, time.UTC)
+		return
+	case "chan":
+		d.Any = map[string]interface{}{"c": make(chan int)}
+		return
+	case "func":
+		d.Any = []interface{}{func() {}}
+		return
+	}
 	switch aux["val"] {
 	case "inf":
 		v = math.Inf(1)
